@@ -68,6 +68,10 @@ impl SatSolver for BufferedSatSolver {
     }
 
     fn solve_under_assumptions(&mut self, assumptions: &[Literal]) -> SolvingResult {
+        // the assumptions are sent as unit clauses: their variables count in the preamble and in the model
+        assumptions.iter().for_each(|l| {
+            self.n_vars = usize::max(self.n_vars, usize::from(l.var()));
+        });
         self.listeners
             .iter()
             .for_each(|l| l.solving_start(self.n_vars(), self.n_clauses));
